@@ -158,6 +158,13 @@ def case(arg):
                     ps = ps + [redo]
                     vs = vs + [_other_value(kn, r.told_last[X.data_key(kn, redo)])]
                     bump("tell_many_with_known_point")
+                if len(ps) >= 1 and rng.random() < 0.3 and b not in ("avg1d", "integ") and not kn.startswith("ds:"):
+                    # the same new point twice in one batch, with a different second value (tell one by one: first-value
+                    # learners keep the first, the others the last)
+                    j = rng.randrange(len(ps))
+                    ps = ps + [ps[j]]
+                    vs = vs + [_other_value(kn, vs[j])]
+                    bump("tell_many_with_duplicate_in_batch")
                 kw = {"force": True} if (b.startswith("l1d") and not kn.startswith(("bal:", "ds:")) and rng.random() < 0.5) else {}
                 l.tell_many(ps, vs, **kw)
                 for p, v in zip(ps, vs):
